@@ -246,8 +246,9 @@ pub fn judge(c: &Case, st: &mut Stats) -> Verdict {
     // value and the same header text through every text entry point (what follows an accepted header does not matter)
     let d = c.digest();
     if d % 3 == 0 {
-        let unit = ["GET / HTTP/1.1\r\nHost: example.org\r\n\r\n", "\u{65e5}\u{672c}\u{8a9e}\u{306e}\u{30c6}\u{30ad}\u{30b9}\u{30c8}", "\u{e9}", "\u{1f600}", "\u{20ac}uro "][(d / 3 % 5) as usize];
-        let pad = &"abc"[..(d / 15 % 4) as usize];
+        // payloads: a request, multi-byte text, and - a chain of proxies - another v1 line (this very line, or a fixed one)
+        let unit = ["GET / HTTP/1.1\r\nHost: example.org\r\n\r\n", "\u{65e5}\u{672c}\u{8a9e}\u{306e}\u{30c6}\u{30ad}\u{30b9}\u{30c8}", "\u{e9}", "\u{1f600}", "\u{20ac}uro ", s.as_str(), "PROXY TCP4 192.0.2.1 198.51.100.7 51234 443\r\n", "PROXY UNKNOWN\r\n"][(d / 3 % 8) as usize];
+        let pad = if unit.starts_with("PROXY") { "" } else { &"abc"[..(d / 24 % 4) as usize] };
         let mut with = s.clone();
         with.push_str(pad);
         while with.len() < 260 {
